@@ -66,6 +66,9 @@ META = {
                     'TZ of the implementation run is pinned (UTC, and America/New_York for the timestamp cases)'],
 }
 
+# --- lead: algorithm-level source tie mentioned in the technique (kept separate so the builder's text stays intact)
+META['technique'] = META['technique'] + ' + translation of type_conv.as_bool / as_int / as_int_v1 (exact-type dispatch) from the current source text into Gallina, proved equal to the hand-written model on every run (tie T for algorithms)'
+
 # ----------------------------------------------------------------------------------------------
 # type descriptors and values -> Coq
 SCALARS = ['str', 'int', 'float', 'bool', 'bytes', 'datetime', 'date', 'time', 'timedelta', 'decimal',
